@@ -53,28 +53,62 @@ Proof. unfold Qsgn, Qlt. simpl. intro H. apply Z.sgn_pos. lia. Qed.
 Lemma inv_pos r : 0 < r -> 0 < 1 / r.
 Proof. intro H. unfold Qdiv. rewrite Qmult_1_l. apply Qinv_lt_0_compat. exact H. Qed.
 
-Lemma rate_pos t1 t2 : 0 < t1 -> 0 < t2 -> t2 < 2 * t1 -> 0 < 1 / t2 - 1 / 2 / t1.
+(* The pure-dephasing rate is recognised SEMANTICALLY: whatever expression r the source uses for it
+   (1/t2 - 1/2/t1, 1/t2 - 0.5/t1, 1/t2 - 1/(2*t1), ...), `field` shows r == (2 t1 - t2)/(2 t1 t2) and everything
+   else is derived from that canonical form, with r abstracted to a variable. *)
+Lemma rate_inner t1 t2 r : 0 < t1 -> 0 < t2 -> t2 < 2 * t1 -> r == (2 * t1 - t2) / (2 * t1 * t2) -> 0 < r /\ 0 < 1 / r.
 Proof.
-  intros H1 H2 H. setoid_replace (1 / t2 - 1 / 2 / t1) with ((2 * t1 - t2) / (2 * t1 * t2)) by (field; split; lra).
+  intros H1 H2 H Hr. assert (P : 0 < r) by (rewrite Hr; apply Qlt_shift_div_l; nra).
+  split; [exact P | apply inv_pos; exact P].
+Qed.
+Lemma rate_bdry t1 t2 r : 0 < t1 -> 0 < t2 -> t2 == 2 * t1 -> r == (2 * t1 - t2) / (2 * t1 * t2) -> r == 0.
+Proof. intros H1 H2 H Hr. rewrite Hr, H. field. lra. Qed.
+Lemma rate_outer t1 t2 r : 0 < t1 -> 0 < t2 -> 2 * t1 < t2 -> r == (2 * t1 - t2) / (2 * t1 * t2) -> r < 0.
+Proof.
+  intros H1 H2 H Hr. rewrite Hr. apply Qlt_shift_div_r; nra.
+Qed.
+Lemma g2_canon t1 t2 r : 0 < t1 -> 0 < t2 -> r == (2 * t1 - t2) / (2 * t1 * t2) -> 2 * r == 2 / t2 - 1 / t1.
+Proof. intros H1 H2 Hr. rewrite Hr. field. split; lra. Qed.
+Lemma g2_pos t1 t2 : 0 < t1 -> 0 < t2 -> t2 < 2 * t1 -> 0 < 2 / t2 - 1 / t1.
+Proof.
+  intros H1 H2 H. setoid_replace (2 / t2 - 1 / t1) with ((2 * t1 - t2) / (t1 * t2)) by (field; split; lra).
   apply Qlt_shift_div_l; nra.
 Qed.
-Lemma rate_zero t1 t2 : 0 < t1 -> 0 < t2 -> t2 == 2 * t1 -> 1 / t2 - 1 / 2 / t1 == 0.
-Proof. intros H1 H2 H. rewrite H. field. lra. Qed.
-Lemma rate_zero_inv t1 t2 : 0 < t1 -> 0 < t2 -> 1 / t2 - 1 / 2 / t1 == 0 -> t2 == 2 * t1.
-Proof.
-  intros H1 H2 H.
-  assert (E : (1 / t2 - 1 / 2 / t1) * (2 * t1 * t2) == 2 * t1 - t2) by (field; split; lra).
-  rewrite H in E. lra.
-Qed.
 
-Ltac ex := cbn [exec evc evq evr has_sqrt lookup obind oval stop Nat.eqb orb fst snd app map].
+Ltac ex := cbn [exec evc evq evr has_sqrt lookup obind oval stop Nat.eqb orb andb negb fst snd app map].
 Ltac btest :=
   match goal with
   | |- context [Qlt_bool ?a ?b] => let E := fresh "E" in destruct (Qlt_bool a b) eqn:E; [apply Qlt_bool_true in E | apply Qlt_bool_false in E]
   | |- context [Qeq_bool ?a ?b] => let E := fresh "E" in destruct (Qeq_bool a b) eqn:E; [apply Qeq_bool_iff in E | apply Qeq_bool_neq in E]
   | |- context [Qle_bool ?a ?b] => let E := fresh "E" in destruct (Qle_bool a b) eqn:E; [apply Qle_bool_iff in E | apply Qlt_bool_true; unfold Qlt_bool; rewrite E; reflexivity ]
   end.
-Ltac run := unfold run_body, relax_body; ex; repeat (btest; ex; try (exfalso; lra)).
+(* name the dephasing-rate expression (the first tested expression that mentions both times) and derive its sign *)
+Ltac pose_rate t1 t2 :=
+  match goal with
+  | |- context [Qeq_bool ?r ?z] =>
+      match r with context [t1] => match r with context [t2] =>
+        let rr := fresh "rr" in let Err := fresh "Err" in let Hr := fresh "Hr" in
+        remember r as rr eqn:Err;
+        assert (Hr : rr == (2 * t1 - t2) / (2 * t1 * t2)) by (rewrite Err; field; repeat split; lra);
+        clear Err;
+        try (let X := fresh "Hin" in assert (X : 0 < rr /\ 0 < 1 / rr) by (apply (rate_inner t1 t2 rr); assumption); destruct X);
+        try (assert (rr == 0) by (apply (rate_bdry t1 t2 rr); assumption));
+        try (assert (rr < 0) by (apply (rate_outer t1 t2 rr); assumption))
+      end end
+  end.
+Ltac kill := try (exfalso; lra); try (exfalso; auto; fail).
+Ltac run := unfold run_body, relax_body; ex; repeat (btest; ex; kill).
+Ltac run2 t1 t2 := unfold run_body, relax_body; ex; repeat (first [pose_rate t1 t2 | btest]; ex; kill).
+Ltac sgn := repeat match goal with |- context [Qsgn ?x] => rewrite (Qsgn_pos x) by lra end.
+
+(* result shapes (the rate expressions themselves are whatever the source computes) *)
+Definition shape0 (o : outcome (list emit)) : Prop := match o with Ok [] => True | _ => False end.
+Definition shape1 (k : opk) (o : outcome (list emit)) (P : Q -> Prop) : Prop :=
+  match o with Ok [(k', s, g)] => opk_eqb k' k = true /\ s = 1%Z /\ P g | _ => False end.
+Definition shape2 (o : outcome (list emit)) (P : Q -> Q -> Prop) : Prop :=
+  match o with
+  | Ok [(KDestroy, s1, g1); (KNum, s2, g2)] => s1 = 1%Z /\ s2 = 1%Z /\ P g1 g2
+  | _ => False end.
 
 (* ---------------------------------------------------------------------------------------------- *)
 (* the loop body, one qubit                                                                        *)
@@ -82,70 +116,67 @@ Ltac run := unfold run_body, relax_body; ex; repeat (btest; ex; try (exfalso; lr
 Lemma body_none_none : run_body relax_body None None = Ok [].
 Proof. reflexivity. Qed.
 
-Lemma body_t1_only t1 : 0 < t1 ->
-  run_body relax_body (Some t1) None = Ok [(KDestroy, 1%Z, 1 * 1 / t1)].
+Lemma body_t1_only t1 : 0 < t1 -> shape1 KDestroy (run_body relax_body (Some t1) None) (fun g => g == 1 / t1).
 Proof.
-  intro H1. run. rewrite (Qsgn_pos t1 H1). reflexivity.
+  intro H1. unfold shape1. run. sgn. repeat split; try reflexivity; try (field; lra).
 Qed.
 
-Lemma body_t2_only t2 : 0 < t2 ->
-  run_body relax_body None (Some t2) = Ok [(KNum, 1%Z, 1 * 1 / (2 * t2) * (2 * 2))].
+Lemma body_t2_only t2 : 0 < t2 -> shape1 KNum (run_body relax_body None (Some t2)) (fun g => g == 2 / t2).
 Proof.
-  intro H2. run. rewrite (Qsgn_pos (2 * t2)) by lra. reflexivity.
+  intro H2. unfold shape1. run. sgn. repeat split; try reflexivity; try (field; lra).
 Qed.
 
 Lemma body_both_inner t1 t2 : 0 < t1 -> 0 < t2 -> t2 < 2 * t1 ->
-  run_body relax_body (Some t1) (Some t2)
-  = Ok [(KDestroy, 1%Z, 1 * 1 / t1); (KNum, 1%Z, 1 * 1 / (2 * (1 / (1 / t2 - 1 / 2 / t1))) * (2 * 2))].
+  shape2 (run_body relax_body (Some t1) (Some t2)) (fun g1 g2 => g1 == 1 / t1 /\ g2 == 2 / t2 - 1 / t1).
 Proof.
-  intros H1 H2 H.
-  pose proof (rate_pos t1 t2 H1 H2 H) as Hr. pose proof (inv_pos _ Hr) as Hi.
-  run. rewrite (Qsgn_pos t1 H1). rewrite (Qsgn_pos (2 * _)) by lra. reflexivity.
+  intros H1 H2 H. unfold shape2. run2 t1 t2. sgn. split; [reflexivity|]. split; [reflexivity|]. split.
+  - field. lra.
+  - match goal with Hr : ?rr == (2 * t1 - t2) / (2 * t1 * t2) |- _ =>
+      rewrite <- (g2_canon t1 t2 rr H1 H2 Hr); field; repeat split; lra end.
 Qed.
 
 Lemma body_both_boundary t1 t2 : 0 < t1 -> 0 < t2 -> t2 == 2 * t1 ->
-  run_body relax_body (Some t1) (Some t2) = Ok [(KDestroy, 1%Z, 1 * 1 / t1)].
+  shape1 KDestroy (run_body relax_body (Some t1) (Some t2)) (fun g => g == 1 / t1).
 Proof.
-  intros H1 H2 H. pose proof (rate_zero t1 t2 H1 H2 H) as Hz.
-  run; try (exfalso; auto; fail). rewrite (Qsgn_pos t1 H1). reflexivity.
+  intros H1 H2 H. unfold shape1. run2 t1 t2. sgn. repeat split; try reflexivity; try (field; lra).
 Qed.
 
 Lemma body_reject t1 t2 : 0 < t1 -> 0 < t2 -> 2 * t1 < t2 ->
   run_body relax_body (Some t1) (Some t2) = Raised ErrValue.
-Proof. intros H1 H2 H. run; try reflexivity. Qed.
+Proof. intros H1 H2 H. run2 t1 t2; try reflexivity. Qed.
 
 Lemma body_rates a b : valid a -> valid b -> compat a b ->
   exists ts, run_body relax_body a b = Ok ts /\ rates_ok a b ts.
 Proof.
   intros Ha Hb Hc. destruct a as [t1|], b as [t2|]; simpl in Ha, Hb, Hc.
   - destruct (Qlt_le_dec t2 (2 * t1)) as [L|L].
-    + eexists. split; [apply body_both_inner; assumption|].
-      pose proof (rate_pos t1 t2 Ha Hb L) as Hr. pose proof (inv_pos _ Hr) as Hi.
+    + pose proof (body_both_inner t1 t2 Ha Hb L) as Hs. unfold shape2 in Hs.
+      destruct (run_body relax_body (Some t1) (Some t2)) as [[|[[k s] g] [|[[k' s'] g'] [|? ?]]]| | |]; try contradiction;
+        destruct k; try contradiction; destruct k'; try contradiction.
+      destruct Hs as [-> [-> [Hg Hg']]]. eexists. split; [reflexivity|].
+      pose proof (g2_pos t1 t2 Ha Hb L) as Hp.
       unfold rates_ok. cbn [rate_of opk_eqb fst snd].
-      assert (N1 : ~ t1 == 0) by lra. assert (N2 : ~ t2 == 0) by lra.
-      assert (N3 : ~ 1 / t2 - 1 / 2 / t1 == 0) by lra.
-      assert (Eq2 : 1 * 1 / (2 * (1 / (1 / t2 - 1 / 2 / t1))) * (2 * 2) == 2 * (1 / t2 - 1 / 2 / t1)).
-      { field. repeat split; try lra; intro X; apply N3; rewrite <- X; field; split; lra. }
-      split; [field; lra|]. split.
-      * rewrite Eq2. field. split; lra.
-      * repeat constructor; cbn [fst snd]; try reflexivity.
-        -- apply Qlt_shift_div_l; lra.
-        -- rewrite Eq2. lra.
+      split; [rewrite Hg; field; lra|]. split; [rewrite Hg, Hg'; field; split; lra|].
+      repeat constructor; cbn [fst snd]; try reflexivity; [rewrite Hg; apply Qlt_shift_div_l; lra | rewrite Hg'; exact Hp].
     + assert (E : t2 == 2 * t1) by lra.
-      eexists. split; [apply body_both_boundary; assumption|].
+      pose proof (body_both_boundary t1 t2 Ha Hb E) as Hs. unfold shape1 in Hs.
+      destruct (run_body relax_body (Some t1) (Some t2)) as [[|[[k s] g] [|? ?]]| | |]; try contradiction.
+      destruct Hs as [Hk [-> Hg]]. destruct k; try discriminate Hk. eexists. split; [reflexivity|].
       unfold rates_ok. cbn [rate_of opk_eqb fst snd].
-      split; [field; lra|]. split.
-      * rewrite E. field. lra.
-      * repeat constructor; cbn [fst snd]; try reflexivity. apply Qlt_shift_div_l; lra.
-  - eexists. split; [apply body_t1_only; assumption|].
+      split; [rewrite Hg; field; lra|]. split; [rewrite Hg, E; field; lra|].
+      repeat constructor; cbn [fst snd]; try reflexivity. rewrite Hg. apply Qlt_shift_div_l; lra.
+  - pose proof (body_t1_only t1 Ha) as Hs. unfold shape1 in Hs.
+    destruct (run_body relax_body (Some t1) None) as [[|[[k s] g] [|? ?]]| | |]; try contradiction.
+    destruct Hs as [Hk [-> Hg]]. destruct k; try discriminate Hk. eexists. split; [reflexivity|].
     unfold rates_ok. cbn [rate_of opk_eqb fst snd].
-    split; [field; lra|]. split; [reflexivity|].
-    repeat constructor; cbn [fst snd]; try reflexivity. apply Qlt_shift_div_l; lra.
-  - eexists. split; [apply body_t2_only; assumption|].
+    split; [rewrite Hg; field; lra|]. split; [reflexivity|].
+    repeat constructor; cbn [fst snd]; try reflexivity. rewrite Hg. apply Qlt_shift_div_l; lra.
+  - pose proof (body_t2_only t2 Hb) as Hs. unfold shape1 in Hs.
+    destruct (run_body relax_body None (Some t2)) as [[|[[k s] g] [|? ?]]| | |]; try contradiction.
+    destruct Hs as [Hk [-> Hg]]. destruct k; try discriminate Hk. eexists. split; [reflexivity|].
     unfold rates_ok. cbn [rate_of opk_eqb fst snd].
-    split; [reflexivity|]. split; [field; lra|].
-    repeat constructor; cbn [fst snd]; try reflexivity.
-    setoid_replace (1 * 1 / (2 * t2) * (2 * 2)) with (2 / t2) by (field; lra). apply Qlt_shift_div_l; lra.
+    split; [reflexivity|]. split; [rewrite Hg; field; lra|].
+    repeat constructor; cbn [fst snd]; try reflexivity. rewrite Hg. apply Qlt_shift_div_l; lra.
   - exists []. split; [reflexivity|]. unfold rates_ok. cbn. repeat split; try reflexivity. constructor.
 Qed.
 
